@@ -457,6 +457,8 @@ fn is_client_ctor(e: &Expr) -> bool {
 struct PathNorm<'a> {
     assoc: &'a BTreeMap<String, String>,
     sites: usize,
+    /// only substitute `Self::<Assoc>`, leave module qualifiers alone (early pass before the effect inference)
+    assoc_only: bool,
 }
 fn is_module_seg(s: &str) -> bool {
     const PRIMS: [&str; 17] = ["i8", "i16", "i32", "i64", "i128", "isize", "u8", "u16", "u32", "u64", "u128", "usize", "bool", "char", "str", "f32", "f64"];
@@ -479,6 +481,9 @@ impl<'a> VisitMut for PathNorm<'a> {
                     self.sites += 1;
                 }
             }
+        }
+        if self.assoc_only {
+            return;
         }
         let n = p.segments.len();
         if n >= 2 {
@@ -1264,7 +1269,7 @@ fn main() {
                 g.file = format!("{} (default of trait {} for {})", f.file, tr, ty);
                 let mut ar = AssocResolver { tr: &tr, assoc: &assoc, bounds: &c.assoc_bounds, fns: &c.fns, need: vec![], errors: vec![] };
                 ar.visit_block_mut(&mut g.block);
-                let mut pn = PathNorm { assoc: &assoc, sites: 0 };
+                let mut pn = PathNorm { assoc: &assoc, sites: 0, assoc_only: false };
                 pn.visit_signature_mut(&mut g.sig);
                 for e in ar.errors {
                     errors.push(format!("{}: {}", g.key, e));
@@ -1341,6 +1346,33 @@ fn main() {
             let k = s.split('#').last().unwrap();
             if !seen.contains(k) {
                 errors.push(format!("lost anchor: function {} not found", s));
+            }
+        }
+    }
+    // `Self::Assoc::m(..)` written in a trait-impl method (not an instantiated default: those go through the bound, see T8)
+    // names the associated type set in this impl or in the impl of a supertrait for the same type
+    // (`impl FungibleBurnable for X { fn burn(..) { Self::ContractType::burn(..) } }` with `type ContractType = Base` in
+    // `impl FungibleToken for X`).  The impl type is concrete there, so the path resolves like `Base::burn` (inherent
+    // first).  Substituted before the effect inference so that the callee is seen.
+    for f in selected.iter_mut() {
+        if let (Some(tn), Some(ty), false) = (f.trait_name.clone(), f.impl_type.clone(), f.in_trait_decl) {
+            if f.file.contains("(default of trait ") {
+                continue;
+            }
+            let mut assoc: BTreeMap<String, String> = BTreeMap::new();
+            for t in c.trait_impls.iter().filter(|t| t.type_name == ty && t.trait_name != tn) {
+                for (k, v) in &t.assoc {
+                    assoc.entry(k.clone()).or_insert(v.clone());
+                }
+            }
+            for t in c.trait_impls.iter().filter(|t| t.type_name == ty && t.trait_name == tn) {
+                for (k, v) in &t.assoc {
+                    assoc.insert(k.clone(), v.clone());
+                }
+            }
+            if !assoc.is_empty() {
+                let mut pn = PathNorm { assoc: &assoc, sites: 0, assoc_only: true };
+                pn.visit_block_mut(&mut f.block);
             }
         }
     }
@@ -1458,7 +1490,7 @@ fn main() {
             (Some(tn), Some(ty)) => c.trait_impls.iter().find(|t| &t.trait_name == tn && &t.type_name == ty).map(|t| &t.assoc).unwrap_or(&empty_assoc),
             _ => &empty_assoc,
         };
-        let mut pn = PathNorm { assoc: assoc_here, sites: 0 };
+        let mut pn = PathNorm { assoc: assoc_here, sites: 0, assoc_only: false };
         pn.visit_block_mut(&mut block);
         let res = std::panic::catch_unwind(std::panic::AssertUnwindSafe(|| {
             rw.visit_block_mut(&mut block);
